@@ -12,7 +12,7 @@ import (
 )
 
 func init() {
-	register(&Rule{Name: "merkle.unrolled", Floor: 3,
+	register(&Rule{Name: "merkle.unrolled", Floor: 2,
 		Doc: "hand-unrolled HashTreeRoot of byte-array types ([N]byte hashed by direct hFn(a, b) calls): read in order, the leaves of the call tree are chunk 0, chunk 1, ... of the value (bytes [32k, min(32k+32, N)) each exactly once), padded with zero chunks to a power of two, and the tree is balanced",
 		Run: ruleMerkleUnrolled})
 	register(&Rule{Name: "global.hasher", Floor: 20,
@@ -166,6 +166,32 @@ func ruleMerkleUnrolled(c *Ctx) {
 			c.unm(key, fd.Pos(), "no single top-level return")
 			return
 		}
+		// the rule reads trees of hFn(…, …) calls written out by hand; a root computed some other way (a reduction loop
+		// over a layer of chunks) is not such a tree and is left undecided
+		{
+			top := ast.Unparen(ret)
+			for k := 0; k < 4; k++ {
+				id, ok := top.(*ast.Ident)
+				if !ok {
+					break
+				}
+				d, ok := defs[info.Uses[id]]
+				if !ok || d.n != 1 || d.rhs == nil {
+					break
+				}
+				top = ast.Unparen(d.rhs)
+			}
+			isTree := false
+			if call, ok := top.(*ast.CallExpr); ok {
+				if id, ok := call.Fun.(*ast.Ident); ok && info.Uses[id] == hfn && len(call.Args) == 2 {
+					isTree = true
+				}
+			}
+			if !isTree {
+				c.info(key, fd.Pos(), "%s does not return a hand-written tree of %s(a, b) calls: merkleized some other way (a loop over a layer), which this rule does not read — not an instance of it", fname, hfn.Name())
+				return
+			}
+		}
 		type lf struct {
 			kind  string // chunk | zero | ?
 			k     int64
@@ -249,8 +275,8 @@ func ruleMerkleUnrolled(c *Ctx) {
 		}
 	})
 	c.stat("hand_hashers", n)
-	if n < 3 {
-		anchorFail("merkle.unrolled: expected >=3 hand-unrolled byte-array hashers (pubkey, signature, logs bloom), found %d", n)
+	if n < 2 {
+		anchorFail("merkle.unrolled: expected hand-written byte-array hashers (pubkey, signature, logs bloom on the reviewed tree), found %d", n)
 	}
 }
 
